@@ -71,6 +71,213 @@ theorem c09_strict_eq_parse (env : Env P O T V) (i : Internals P O V) (x : Input
       · rw [if_pos hc, checked_no_checks env i false v hc]
       · rw [if_neg hc]
 
+/-! ## Histories (round 2): every entry point, called in any order and any number of times on schemas
+    derived by any route, answers what a cold `Parse` of the schema's current configuration answers. -/
+
+/-- The strict path with an arbitrary fast-path answer `b` agrees with `Parse` as soon as `b` is only
+    ever `true` for a check-less configuration — the one fact the fast path relies on. -/
+theorem strictParseWith_sound (env : Env P O T V) (i : Internals P O V) (b : Bool) (x : Input V)
+    (hb : b = true → i.checks.isEmpty = true) : strictParseWith env i b x = parse env i x := by
+  cases x with
+  | nil => rfl
+  | nilPtr => rfl
+  | foreign => rfl
+  | val v =>
+    simp only [strictParseWith, parse]
+    by_cases hf : b = true
+    · rw [if_pos hf, checked_no_checks env i false v (hb hf)]
+    · rw [if_neg hf]
+      by_cases hc : i.checks.isEmpty = true
+      · rw [if_pos hc, checked_no_checks env i false v hc]
+      · rw [if_neg hc]
+  | ptr v =>
+    simp only [strictParseWith, parse]
+    rw [checked_ptr_irrelevant]
+    by_cases hf : b = true
+    · rw [if_pos hf, checked_no_checks env i false v (hb hf)]
+    · rw [if_neg hf]
+      by_cases hc : i.checks.isEmpty = true
+      · rw [if_pos hc, checked_no_checks env i false v hc]
+      · rw [if_neg hc]
+
+theorem strictFast_checks_empty (i : Internals P O V) (h : strictFast i = true) : i.checks.isEmpty = true := by
+  simp only [strictFast, Bool.and_eq_true] at h; exact h.1.1.1.1.1.1
+
+/-- The hypotheses about per-schema state that the harness ties to the code: in every reachable
+    state the answer the strict entry points use equals the fast-path condition *recomputed from the
+    schema's own configuration*. It is preserved when (`run_ok`) parsing leaves it intact — in
+    particular when parsing writes nothing, which is what the harness observes on the real internals —
+    and when (`init_ok`, `clone_ok`) every derivation route yields a schema whose answer is that of its
+    own fields. -/
+structure Faithful {H : Type} (m : Impl P O V H) : Prop where
+  init_ok : ∀ c, m.fast c (m.init c) = strictFast c
+  run_ok : ∀ ep c h x, m.fast c h = strictFast c → m.fast c (m.onRun ep c h x) = strictFast c
+  clone_ok : ∀ k (d s : Cell P O V H), m.fast d.cfg d.hid = strictFast d.cfg → m.fast s.cfg s.hid = strictFast s.cfg →
+    m.fast (cloneCfg k d.cfg s.cfg) (m.onClone k d s) = strictFast (cloneCfg k d.cfg s.cfg)
+
+/-- Read-only parsing is the special case of `run_ok` the frame observation establishes. -/
+theorem run_ok_of_read_only {H : Type} (m : Impl P O V H) (h : ∀ ep c hid x, m.onRun ep c hid x = hid) :
+    ∀ ep c hid x, m.fast c hid = strictFast c → m.fast c (m.onRun ep c hid x) = strictFast c := by
+  intro ep c hid x hh; rw [h]; exact hh
+
+theorem pinned_faithful : Faithful (pinned : Impl P O V Unit) :=
+  ⟨fun _ => rfl, fun _ _ _ _ _ => rfl, fun _ _ _ _ _ => rfl⟩
+
+def Good {H : Type} (m : Impl P O V H) (h : List (Cell P O V H)) : Prop :=
+  ∀ c ∈ h, m.fast c.cfg c.hid = strictFast c.cfg
+
+theorem runEP_eq_parse {H : Type} (m : Impl P O V H) (env : Env P O T V) (ep : EP) (c : Cell P O V H) (x : Input V)
+    (hc : m.fast c.cfg c.hid = strictFast c.cfg) : runEP m env ep c x = parse env c.cfg x := by
+  unfold runEP
+  by_cases hs : ep.isStrict = true
+  · rw [if_pos hs]
+    apply strictParseWith_sound
+    intro hb; rw [hc] at hb; exact strictFast_checks_empty _ hb
+  · rw [if_neg hs]
+
+theorem good_set {H : Type} {m : Impl P O V H} {h : List (Cell P O V H)} {j : Nat} {c : Cell P O V H}
+    (hg : Good m h) (hc : m.fast c.cfg c.hid = strictFast c.cfg) : Good m (h.set j c) := by
+  intro c' hm
+  rcases List.mem_or_eq_of_mem_set hm with h1 | h1
+  · exact hg c' h1
+  · rw [h1]; exact hc
+
+theorem good_snoc {H : Type} {m : Impl P O V H} {h : List (Cell P O V H)} {c : Cell P O V H}
+    (hg : Good m h) (hc : m.fast c.cfg c.hid = strictFast c.cfg) : Good m (h ++ [c]) := by
+  intro c' hm
+  rcases List.mem_append.mp hm with h1 | h1
+  · exact hg c' h1
+  · rw [List.mem_singleton.mp h1]; exact hc
+
+theorem set_self {α : Type} {l : List α} {j : Nat} {a : α} (h : l[j]? = some a) : l.set j a = l := by
+  induction l generalizing j with
+  | nil => rfl
+  | cons b l ih =>
+    cases j with
+    | zero => simp at h; simp [h]
+    | succ j => simp at h; simp [ih h]
+
+/-- One step: the invariant is kept, the configurations evolve as in the reference, and a `run`
+    step answers what `Parse` answers on the configuration. -/
+theorem step_spec {H : Type} (m : Impl P O V H) (hf : Faithful m) (env : Env P O T V)
+    (h : List (Cell P O V H)) (hg : Good m h) (op : Op P O V) :
+    Good m (step m env h op).1 ∧ (step m env h op).1.map (·.cfg) = cfgStep (h.map (·.cfg)) op ∧
+      (step m env h op).2 = specOut env (h.map (·.cfg)) op := by
+  cases op with
+  | mk c =>
+    refine ⟨good_snoc hg (hf.init_ok c), ?_, rfl⟩
+    simp [step, cfgStep]
+  | chain j f =>
+    simp only [step, cfgStep, specOut, List.getElem?_map]
+    cases hj : h[j]? with
+    | none => simp [hg]
+    | some c =>
+      refine ⟨good_snoc hg (hf.init_ok _), ?_, rfl⟩
+      simp
+  | cloneFrom k d s =>
+    simp only [step, cfgStep, specOut, List.getElem?_map]
+    cases hd : h[d]? with
+    | none => simp [hg]
+    | some cd =>
+      cases hs : h[s]? with
+      | none => simp [hg]
+      | some cs =>
+        simp only [Option.map_some]
+        by_cases ht : sameGoType cd.cfg cs.cfg = true
+        · rw [if_pos ht, if_pos ht]
+          refine ⟨good_set hg (hf.clone_ok k cd cs (hg cd (List.mem_of_getElem? hd)) (hg cs (List.mem_of_getElem? hs))), ?_, rfl⟩
+          simp [List.map_set]
+        · rw [if_neg ht, if_neg ht]
+          exact ⟨hg, rfl, rfl⟩
+  | run ep j x =>
+    simp only [step, cfgStep, specOut, List.getElem?_map]
+    cases hj : h[j]? with
+    | none => simp [hg]
+    | some c =>
+      have hc := hg c (List.mem_of_getElem? hj)
+      refine ⟨good_set hg (hf.run_ok ep c.cfg c.hid x hc), ?_, ?_⟩
+      · simp only [List.map_set]
+        exact set_self (by simp [hj])
+      · simp only [Option.map_some]
+        rw [runEP_eq_parse m env ep c x hc]
+
+/-- **C09 over histories.** For an implementation whose per-schema state is `Faithful`, every run of
+    every entry point in every history — constructors, copy-on-write methods, `CloneFrom` of either
+    flavour in either direction, entry points called any number of times in any order — returns what
+    `Parse` returns on the schema's current configuration, and the configurations evolve independently
+    of the parses. -/
+theorem c09_history {H : Type} (m : Impl P O V H) (hf : Faithful m) (env : Env P O T V)
+    (ops : List (Op P O V)) (h : List (Cell P O V H)) (hg : Good m h) :
+    (exec m env h ops).2 = (execSpec env (h.map (·.cfg)) ops).2 ∧
+    (exec m env h ops).1.map (·.cfg) = (execSpec env (h.map (·.cfg)) ops).1 := by
+  induction ops generalizing h with
+  | nil => exact ⟨rfl, rfl⟩
+  | cons op ops ih =>
+    obtain ⟨g1, g2, g3⟩ := step_spec m hf env h hg op
+    have := ih (step m env h op).1 g1
+    simp only [exec, execSpec]
+    rw [← g2, ← g3]
+    exact ⟨by rw [this.1], this.2⟩
+
+/-- The pinned code, from the empty heap. -/
+theorem c09_history_pinned (env : Env P O T V) (ops : List (Op P O V)) :
+    (exec (pinned : Impl P O V Unit) env [] ops).2 = (execSpec env [] ops).2 :=
+  (c09_history pinned pinned_faithful env ops [] (by intro c hc; cases hc)).1
+
+/-- In any reachable heap the six entry points of any schema agree on any input. -/
+theorem c09_history_entrypoints_agree {H : Type} (m : Impl P O V H) (hf : Faithful m) (env : Env P O T V)
+    (ops : List (Op P O V)) (j : Nat) (c : Cell P O V H) (hj : (exec m env [] ops).1[j]? = some c)
+    (ep ep' : EP) (x : Input V) : runEP m env ep c x = runEP m env ep' c x := by
+  have hg : Good m (exec m env [] ops).1 := by
+    have key : ∀ (ops : List (Op P O V)) (h : List (Cell P O V H)), Good m h → Good m (exec m env h ops).1 := by
+      intro ops
+      induction ops with
+      | nil => intro h hg; exact hg
+      | cons op ops ih =>
+        intro h hg
+        simp only [exec]
+        exact ih _ (step_spec m hf env h hg op).1
+    exact key ops [] (by intro c hc; cases hc)
+  have hc := hg c (List.mem_of_getElem? hj)
+  rw [runEP_eq_parse m env ep c x hc, runEP_eq_parse m env ep' c x hc]
+
+/-- History independence: earlier parses are irrelevant to the configurations (hence, with
+    `c09_history`, to every later answer) — the warm schema and its never-parsed twin agree. -/
+theorem c09_parses_do_not_matter (env : Env P O T V) (ops : List (Op P O V)) (h : List (Internals P O V)) :
+    (execSpec env h ops).1 = (execSpec env h (ops.filter (fun o => !o.isRun))).1 := by
+  induction ops generalizing h with
+  | nil => rfl
+  | cons op ops ih =>
+    cases op with
+    | run ep j x => simp only [List.filter, Op.isRun, Bool.not_true, execSpec, cfgStep]; exact ih h
+    | mk c => simp only [List.filter, Op.isRun, Bool.not_false, execSpec]; exact ih _
+    | chain j f => simp only [List.filter, Op.isRun, Bool.not_false, execSpec]; exact ih _
+    | cloneFrom k d s => simp only [List.filter, Op.isRun, Bool.not_false, execSpec]; exact ih _
+
+/-! ### A cache that can go stale is a counterexample to `Faithful.clone_ok` -/
+
+def wEnv : Env Nat Nat Nat Nat := { holds := fun p v => decide (p ≤ v), apply := fun o v => v + o, trans := fun _ v => v }
+/-- A: `Int()`;  B: `Int().Min(10)`;  `A.StrictParse(7)`;  `B.CloneFrom(A)`;  `B.StrictParse(7)`, `B.Parse(7)`. -/
+def wOps : List (Op Nat Nat Nat) :=
+  [.mk {}, .mk { checks := [Check.pred 10 false none] }, .run .strict 0 (.val 7), .cloneFrom .keepChecks 1 0,
+   .run .strict 1 (.val 7), .run .parse 1 (.val 7)]
+
+/-- With the memoising implementation the history above makes `StrictParse` accept what `Parse`
+    rejects; with the pinned one both reject. -/
+theorem memoising_stale_witness :
+    (exec memoising wEnv [] wOps).2 = [.okVal 7, .okVal 7, .errChecks [0]] ∧
+    (exec pinned wEnv [] wOps).2 = [.okVal 7, .errChecks [0], .errChecks [0]] := by decide
+
+theorem memoising_not_faithful : ¬ Faithful (memoising : Impl Nat Nat Nat (Option Bool)) := by
+  intro hf
+  have h := hf.clone_ok .keepChecks ⟨{ checks := [Check.pred 10 false none] }, none⟩ ⟨{}, some true⟩ rfl rfl
+  revert h; decide
+
+/-- Non-vacuity of `c09_history`: a history with both `CloneFrom` flavours and every entry point. -/
+example : (exec pinned wEnv [] (wOps ++ [.cloneFrom .copyAll 0 1, .run .mustStrict 0 (.val 12), .run .parseAny 0 (.val 3),
+    .chain 0 (fun c => { c with optional := true, ptrSchema := true }),   .run .mustParseAny 2 .nilPtr, .run .mustParse 2 (.ptr 30)])).2
+    = [.okVal 7, .errChecks [0], .errChecks [0], .okVal 12, .errChecks [0], .okNil, .okVal 30] := by decide
+
 /-- `ParseAny` is `Parse` (types/string.go:152: `return z.Parse(input, ctx...)`), and each `Must`
     variant returns the result or panics with that same error; in the model they are the same
     function, so the statement is reflexivity — the tie (harness) is what checks the wrappers. -/
